@@ -703,8 +703,9 @@ fn one_case(ctx: &mut Ctx, secs: &Secs, enc: Enc, what: &str) {
 
 pub fn run(ctx: &mut Ctx) {
     let n = match ctx.profile {
-        Profile::Miri => 2,
-        _ => ctx.size(1_600, 24_000, 8),
+        // one valid and one mutated set of sections per shard
+        Profile::Miri => 2 * ctx.nshards,
+        _ => ctx.size(1_600, 16_000, 8),
     };
     for i in 0..n {
         if !ctx.want("walk", i) {
